@@ -239,6 +239,9 @@ struct Trace {
     outside: bool,
     /// `size_hint()` in front of every `next()` call (also the call that ended the iteration)
     hints: Vec<(usize, Option<usize>)>,
+    /// what a clone taken after the first `next()` yielded (rendered), against what the original
+    /// went on to yield
+    clone_differs: Option<String>,
 }
 
 /// offset of `rest` inside `area` (None for an empty rest: its pointer carries no information)
@@ -266,11 +269,26 @@ fn drive<'a>(mut it: TcpOptionsIterator<'a>, area: &[u8]) -> Trace {
         extra_some: 0,
         outside: false,
         hints: Vec::with_capacity(8),
+        clone_differs: None,
     };
+    let mut clone_tail: Option<Vec<String>> = None;
+    let mut calls = 0usize;
+    let mut own_tail: Vec<String> = Vec::new();
     loop {
+        if calls == 1 {
+            // a clone continues where the original is
+            let c = it.clone();
+            clone_tail = Some(c.take(area.len() + 2).map(|x| format!("{:?}", x)).collect());
+        }
+        calls += 1;
         let before = it.rest();
         t.hints.push(it.size_hint());
         let r = it.next();
+        if calls > 1 {
+            if let Some(x) = &r {
+                own_tail.push(format!("{:?}", x));
+            }
+        }
         let after = it.rest();
         match r {
             Some(Ok(elem)) => {
@@ -311,6 +329,11 @@ fn drive<'a>(mut it: TcpOptionsIterator<'a>, area: &[u8]) -> Trace {
     for _ in 0..3 {
         if it.next().is_some() {
             t.extra_some += 1;
+        }
+    }
+    if let Some(ct) = clone_tail {
+        if !matches!(t.term, Term::Budget) && ct != own_tail {
+            t.clone_differs = Some(format!("clone yields {:?}, the original {:?}", ct, own_tail));
         }
     }
     t
@@ -506,6 +529,10 @@ impl C13 {
             }
             rep.add("size_hints_checked", tr.hints.len() as u64);
         }
+        if let Some(d) = &tr.clone_differs {
+            rep.violation(&format!("clone_differs|{}", entry), format!("{}: a clone taken after the first next(): {}", entry, d), area);
+            return false;
+        }
         if tr.extra_some > 0 {
             rep.violation(
                 &format!("not_exhausted|{}|after_{}", entry, end_class(&rp.end)),
@@ -676,7 +703,27 @@ impl C13 {
                     );
                     return;
                 }
+                // the trait door rejects with the same required size
+                rep.evals += 1;
+                match shell::guarded(|| TcpOptions::try_from(elems).map(|t| t.as_slice().to_vec())) {
+                    Ok(Err(TcpOptionWriteError::NotEnoughSpace(m))) if m == need => rep.count("lists.rejected_by_trait_door_too"),
+                    Ok(other) => {
+                        rep.violation(
+                            "list|try_from_trait_differs|rejected",
+                            format!("a list of {} elements needing {} octets: try_from_elements reports NotEnoughSpace({}), TryFrom<&[TcpOptionElement]> gives {:?}", elems.len(), need, n, other),
+                            &raw,
+                        );
+                        return;
+                    }
+                    Err(p) => {
+                        self.panic(rep, "TcpOptions::try_from(&[TcpOptionElement])", &p, &raw);
+                        return;
+                    }
+                }
                 rep.count("lists.rejected");
+                if elems.len() > 40 {
+                    rep.count("lists.more_than_40_elements");
+                }
             }
             Ok((bytes, (len, len_u8, data_offset, is_empty), tr, via_trait)) => {
                 if !fits {
@@ -1250,6 +1297,8 @@ impl Monitor for C13 {
                     2 => rng.usize_below(48),
                     _ => rng.usize_below(24),
                 };
+                // (lists of more than 40 elements: longer than the area has octets)
+                let n = if rng.chance(1, 16) { 38 + rng.usize_below(30) } else { n };
                 let noopy = rng.chance(1, 2);
                 let elems: Vec<TcpOptionElement> = (0..n)
                     .map(|_| {
